@@ -916,3 +916,66 @@ example : (ligatureRule (ligCtx 8) ([10], 99)).map (fun r => ((r.1.buf.outArr.ta
     = .ok ([99, 20], true) := by rfl
 
 end RbModel.Flags
+
+
+/-! ### frame: glyphs that were not inspected do not influence the decision of a rule -/
+namespace RbModel.Flags
+open RbModel RbModel.Gsub
+
+/-- **the decision of a contextual rule is local to what it inspected.**  `c1`, `c2`: two apply contexts with the same font,
+    lookup settings and buffer geometry (`Similar`: idx, len, out_len, have_output; the glyph arrays — and the output mode —
+    are free) that hold the same current glyph.  If the buffers agree on the glyphs ONE run of the matcher on `c1` read
+    (`AgreeOn c1 c2 reads`: `info[i]` for `Rd.inp i`, `out_info()[j]` for `Rd.out j` / `Rd.lig j`) then the run on `c2` is
+    the same run: same verdict (match, or the same kind of failure), same match positions, same `end_position` /
+    `start_index` / `end_index`, same reads — for match_input (Context, Ligature) and for the whole matching phase of a chain
+    rule — and therefore the plain matchers return the same result and the rules of the model take the same branch with the
+    same span (`contextFinish` / `chainFinish` on the same `R` / `m`).  Every glyph outside the reads — in particular everything
+    at or beyond `end_position` / `end_index` and everything before `start_index` — may be changed, inserted or removed (the
+    lengths are part of `Similar`: changing `len` is visible to a matcher only if it ran into the end of the buffer, which is
+    then its stop position).  Together with `C03_match_reads_in_span` this is the statement that makes "safe to break" true
+    for one rule application: a cut outside the flagged span leaves the decision unchanged. -/
+theorem C03_context_decision_local (c1 c2 : Ctx) (hs : Similar c1 c2)
+    (hcur : c1.buf.info[c1.buf.idx]? = c2.buf.info[c1.buf.idx]?) :
+    (∀ n fn p R, matchInputI c1 n fn p = .ok R → AgreeOn c1 c2 R.reads →
+      matchInputI c2 n fn p = .ok R ∧ matchInput c2 n fn p = .ok R.r) ∧
+    (∀ nBack nIn nAhead fBack fIn fAhead m, chainMatchI c1 nBack nIn nAhead fBack fIn fAhead = .ok m →
+      AgreeOn c1 c2 m.reads → chainMatchI c2 nBack nIn nAhead fBack fIn fAhead = .ok m) ∧
+    (∀ recurse input mf lookups R,
+      matchInputI c1 input.length (fun g i => mf g (input.getD i 0)) [0, 0, 0, 0] = .ok R → AgreeOn c1 c2 R.reads →
+      applyContextRule recurse c1 input mf lookups = contextFinish recurse c1 input.length lookups R ∧
+      applyContextRule recurse c2 input mf lookups = contextFinish recurse c2 input.length lookups R) ∧
+    (∀ recurse nBack nIn nAhead fBack fIn fAhead lookups m,
+      chainMatchI c1 nBack nIn nAhead fBack fIn fAhead = .ok m → AgreeOn c1 c2 m.reads →
+      applyChainRule recurse c1 nBack nIn nAhead fBack fIn fAhead lookups = chainFinish recurse c1 nIn lookups m ∧
+      applyChainRule recurse c2 nBack nIn nAhead fBack fIn fAhead lookups = chainFinish recurse c2 nIn lookups m) := by
+  refine ⟨?_, ?_, ?_, ?_⟩
+  · intro n fn p R h hag
+    have h2 := matchInputI_local hs n fn p R h hcur hag
+    exact ⟨h2, by rw [← matchInputI_erase, h2]; rfl⟩
+  · intro nBack nIn nAhead fBack fIn fAhead m h hag
+    exact chainMatchI_local hs _ _ _ _ _ _ m h hcur hag
+  · intro recurse input mf lookups R h hag
+    have h2 := matchInputI_local hs _ _ _ R h hcur hag
+    constructor
+    · rw [applyContextRule_eq, h]; rfl
+    · rw [applyContextRule_eq, h2]; rfl
+  · intro recurse nBack nIn nAhead fBack fIn fAhead lookups m h hag
+    have h2 := chainMatchI_local hs _ _ _ _ _ _ m h hcur hag
+    constructor
+    · rw [applyChainRule_eq, h]; rfl
+    · rw [applyChainRule_eq, h2]; rfl
+
+-- non-vacuity: the last glyph of the example buffer (index 4, not read by the rule "1 (marks ignored) 2") is replaced by
+-- another glyph: the two contexts are Similar, agree on the reads [1, 2, 3] (which contain the skipped mark and the stop
+-- glyph), and differ at index 4
+example : ∃ c2 : Ctx, Similar exCtx c2 ∧ exCtx.buf.info[exCtx.buf.idx]? = c2.buf.info[exCtx.buf.idx]? ∧
+    AgreeOn exCtx c2 [.inp 1, .inp 2, .inp 3] ∧ exCtx.buf.info[4]? ≠ c2.buf.info[4]? ∧
+    (matchInputI exCtx 1 (fun g i => g == [2].getD i 0) [0, 0, 0, 0]).map MatchInI.view
+      = .ok (true, 4, [.inp 1, .inp 2, .inp 3], .matched) := by
+  refine ⟨{ exCtx with buf := { exCtx.buf with info := exCtx.buf.info.set 4 { gid := 77, mask := 1, cluster := 4, var1 := 2 } } },
+    ⟨rfl, rfl, rfl, rfl, rfl, rfl, rfl, rfl, rfl, rfl, rfl⟩, rfl, ?_, by decide, rfl⟩
+  intro x hx
+  simp only [List.mem_cons, List.not_mem_nil, or_false] at hx
+  rcases hx with rfl | rfl | rfl <;> rfl
+
+end RbModel.Flags
